@@ -20,12 +20,19 @@ theorem reschedule_other {s s' : RState} {id j : Nat} {r : SchedReason} (h : res
         refine Eq.trans ?_ (e.trans (by simp [hj]))
         rfl
 
-/-- closing `id` leaves every other slab entry exactly as it was -/
+/-- closing `id` leaves every other slab entry as it was, except possibly for the tracker of a live
+    connection (the parked members of the groups whose turn moved are woken: `track` / `reschedule`) -/
 theorem handleDisconnection_other {s s' : RState} {id j : Nat} {r : Option String}
-    (h : handleDisconnection s id r = .ok s') (hj : j ≠ id) : getConn s' j = getConn s j := by
-  rcases handleDisconnection_effect h with ⟨_, rfl⟩ | ⟨c, _, e1, _, _, _⟩
-  · rfl
-  · rw [getConn_remove s s' id j e1]; simp [hj]
+    (h : handleDisconnection s id r = .ok s') (hj : j ≠ id) :
+    (getConn s j = none → getConn s' j = none) ∧
+    ∀ c, getConn s j = some c → ∃ t, getConn s' j = some { c with tracker := t } := by
+  rcases handleDisconnection_effect h with ⟨_, rfl⟩ | ⟨c, s1, logs, _, e1, _, _, _, hw⟩
+  · exact ⟨fun e => e, fun c hc => ⟨c.tracker, hc⟩⟩
+  · have sh := wakeParked_shape hw
+    have hg : getConn s1 j = getConn s j := by rw [getConn_remove s s1 id j e1]; simp [hj]
+    refine ⟨fun e => by rw [sh.none_iff, hg]; exact e, fun d hd => ?_⟩
+    obtain ⟨d', hd', t, rfl⟩ := sh.live (hg.trans hd)
+    exact ⟨t, hd'⟩
 
 /-- an event for connection `id` leaves every other connection in place, identical except possibly
     for its tracker (fresh data wakes parked subscribers: `track` / `reschedule`) -/
@@ -38,7 +45,8 @@ theorem events_frame {s s' : RState} {id j : Nat} {ev : Event} {c : Conn} (h : e
     exact ⟨t, hc'⟩
   · obtain ⟨c', hc', r⟩ := hs.live hc
     obtain ⟨t, rfl⟩ := r.2.1 hj
-    exact ⟨t, by rw [handleDisconnection_other hd hj]; exact hc'⟩
+    obtain ⟨t2, h2⟩ := (handleDisconnection_other hd hj).2 _ hc'
+    exact ⟨t2, h2⟩
 
 /-- `consume` removes nobody; it serves the polled connection and touches at most the tracker of
     the others -/
@@ -53,26 +61,29 @@ theorem consume_frame {s s' : RState} {b : Bool} {j : Nat} {c : Conn} (h : consu
     exact r.2 this
 
 /-- a CONNECT removes at most the connection registered under the same client id (takeover); every
-    other live connection is left exactly as it was -/
+    other live connection stays, unchanged except possibly for its tracker (the takeover closes the
+    old connection, which may wake parked members of its shared groups) -/
 theorem handleNewConnection_frame {s s' : RState} {spec : ConnectSpec} {j : Nat} {c : Conn} (ha : AdmInv s)
     (h : handleNewConnection s spec = .ok s') (hc : getConn s j = some c)
-    (hj : alookup spec.clientId s.connectionMap ≠ some j) : getConn s' j = some c := by
+    (hj : alookup spec.clientId s.connectionMap ≠ some j) : ∃ t, getConn s' j = some { c with tracker := t } := by
   rw [handleNewConnection_eq] at h
   simp only [] at h
   have h0 : AdmInv (setLink s spec.link {}) := ha.congr rfl rfl rfl
   split at h
-  · simp only [Except.ok.injEq] at h; subst h; exact hc
+  · simp only [Except.ok.injEq] at h; subst h; exact ⟨c.tracker, hc⟩
   · split at h
     · simp at h
     · rename_i s1 h1
       obtain ⟨a1, hnone, _⟩ := hnTakeover_spec h0 h1
-      have hc1 : getConn s1 j = some c := by
+      have hc1 : ∃ t, getConn s1 j = some { c with tracker := t } := by
         unfold hnTakeover at h1
         split at h1
         · rename_i old hold
           have : j ≠ old := fun e => hj (by rw [e]; exact hold)
-          rw [handleDisconnection_other h1 this]; exact hc
-        · simp only [Except.ok.injEq] at h1; subst h1; exact hc
+          exact (handleDisconnection_other h1 this).2 c hc
+        · simp only [Except.ok.injEq] at h1; subst h1; exact ⟨c.tracker, hc⟩
+      obtain ⟨t, hc1⟩ := hc1
+      refine ⟨t, ?_⟩
       split at h
       · simp only [Except.ok.injEq] at h; subst h; exact hc1
       · rename_i hroom
